@@ -1,4 +1,4 @@
-package c09corpus
+package c09
 
 import (
 	"bytes"
